@@ -57,6 +57,7 @@ def run(ctx):
     for v, fname in ((40, "path"), (31, "pathfill"), (36, "image")) if tier != "thorough" else ((40, "path"), (31, "pathfill"), (36, "path"), (28, "path"), (40, "image"), (40, "fragment")):
         cases.append((v, fname, dict(facs)[fname], 10, 4, "default"))
     reqs, exps, metas = [], [], []
+    gross = 0
     for (v, fname, F, box, b, spec) in cases:
         is_path = fname in ("path", "pathfill")
         sq = D.SvgPathSquareDrawer if is_path else D.SvgSquareDrawer
@@ -101,9 +102,19 @@ def run(ctx):
             except _Abort:
                 pass
             key += " after-abandoned-render"
+        if gross >= 25:
+            break           # enough grossly wrong documents: the search has its failing inputs (and a runaway implementation is not fed further)
         try:
             im = q.make_image(image_factory=F, **kw)
             buf = io.BytesIO(); im.save(buf); saved = buf.getvalue()
+            ndark = sum(1 for row in q.modules for c in row if c)
+            est = saved.count(b"<svg:rect") + saved.count(b"<svg:circle") + saved.count(b"<rect") + saved.count(b"<circle") + saved.count(b"M")
+            if est > 3 * ndark + 60:
+                # far more shapes than dark modules: a violation as it stands; not parsed shape by shape (documents that accumulate
+                # the shapes of earlier renderings grow without bound)
+                gross += 1
+                R.oracle(key, False, dict(input=key, expected=f"one shape per dark module ({ndark})", observed=f"about {est} shapes for {ndark} dark modules"), tag="P3:count")
+                continue
             tostr = im.to_string()
             doc = svgread.parse(saved)
             doc2_el = ET.fromstring(tostr)
